@@ -182,9 +182,16 @@ func (o *probeObs) measure(rp *realPoly, p v2.Vec, kind int) {
 	o.So = append(o.So, so)
 	o.Sf = append(o.Sf, signClass(f))
 	o.Ss = append(o.Ss, signClass(s))
-	o.Ef = append(o.Ef, e12(math.Abs(f)-d))
-	o.Es = append(o.Es, e12(math.Abs(s)-d))
-	o.Dfs = append(o.Dfs, e12(math.Abs(f)-math.Abs(s)))
+	// Errors are reported in units of the clipper's snapping distance, max(1e-9, 1e-14 x largest coordinate)
+	// (sdf/box2.go lineIntersect): beyond 1e5 from the origin the unit grows with the magnitude - there
+	// 1e-9 is only a few ulps of a coordinate.
+	u := 1.0
+	for _, q := range rp.vs {
+		u = math.Max(u, math.Max(math.Abs(q.X), math.Abs(q.Y))/1e5)
+	}
+	o.Ef = append(o.Ef, e12((math.Abs(f)-d)/u))
+	o.Es = append(o.Es, e12((math.Abs(s)-d)/u))
+	o.Dfs = append(o.Dfs, e12((math.Abs(f)-math.Abs(s))/u))
 	o.Kind = append(o.Kind, kind)
 }
 
@@ -525,10 +532,15 @@ func c04Random(args []string) error {
 				i := r.Intn(len(ws))
 				b := bs[r.Intn(len(bs))]
 				q := ws[i]
+				// exactly on the split line, or a hair beside it: within the clipper's 1e-9 snapping distance, just
+				// outside it, and up to ~1e-8 of the polygon's size away (an end point that close to a box edge has
+				// a crossing parameter within any fixed tolerance of 0 or 1 although it is not the same point)
+				size := rp.mesh.BoundingBox().Size().MaxComponent()
+				dl := []float64{0, 0, 0, 5e-10, -5e-10, 1.5e-9, -1.5e-9, 4e-9, -4e-9, 1e-9 * size, -1e-9 * size, 1e-8 * size, -1e-8 * size}[r.Intn(13)]
 				if r.Intn(2) == 0 {
-					q.X = []float64{b.Min.X, b.Max.X, b.Center().X}[r.Intn(3)]
+					q.X = []float64{b.Min.X, b.Max.X, b.Center().X}[r.Intn(3)] + dl
 				} else {
-					q.Y = []float64{b.Min.Y, b.Max.Y, b.Center().Y}[r.Intn(3)]
+					q.Y = []float64{b.Min.Y, b.Max.Y, b.Center().Y}[r.Intn(3)] + dl
 				}
 				if q.X > bb.Min.X && q.X < bb.Max.X && q.Y > bb.Min.Y && q.Y < bb.Max.Y &&
 					vs[i].X > bb.Min.X && vs[i].X < bb.Max.X && vs[i].Y > bb.Min.Y && vs[i].Y < bb.Max.Y {
